@@ -241,7 +241,7 @@ PROPS["C18"] = {'coq': 'Properties/C18.v',
  'design_ref': 'DESIGN.md section 4, C18',
  'assumptions': ['callbacks arrive in the order of the C15 contract', 'own address 0..125', 'events are collected after every callback']}
 
-PROPS["C01"] = {'claimed': False,
+PROPS["C01"] = {'claimed': True,
  'coq': 'Properties/C01.v',
  'domains': ['fdl'],
  'nontrivial': ['tx:', 'tag:ht:accept', 'tag:reply:', 'tag:gap:reply', 'tag:gap:no-response', 'tag:check:', 'tag:lt:reply'],
@@ -257,20 +257,28 @@ PROPS["C01"] = {'claimed': False,
                   'from active.rs',
                   'harness PHY / scripted applications / scripted environment of harness/src/fdl.rs; monitors of coq/Model/FdlOracle.v (extracted) '
                   "run on the implementation's transcript"],
- 'technique': 'Coq one-step theorems about the Gallina model of the FDL active station + differential correspondence poll by poll + executable '
-              "monitor of the property on the implementation's transcript",
- 'level_text': 'One-step theorems: no transmission while the PHY is busy or before the predicted end of the own transmission. The monitor checks, on '
-               "the implementation's transcripts, who may transmit, the 33 bit synchronisation pause after every observed bus activity, slot expiry "
-               'before a token retry, and the claim time-out.',
+ 'technique': 'Coq theorems (one poll, ALL station states / inputs / applications) about the Gallina model of the FDL active station + differential '
+              "correspondence poll by poll + executable monitor of the property on the implementation's transcript",
+ 'level_text': 'PARTIAL (single-station obligations proved, N-station composition not proved). Proved in Coq for one station, every state, every '
+               'input: C01_who_may_transmit (a poll transmits only from a token-holding state, from PassToken, from CheckTokenPass after slot expiry, '
+               'from ListenToken/ActiveIdle with a pending status request - C01_status_request_is_addressed: such a request was addressed to TS - or as '
+               'the claim after the own token-lost time-out), C01_not_while_busy, C01_not_before_predicted_end, C01_sync_pause (every transmission later '
+               'than last_bus_activity + 33 bit), C01_reply_after_min_tsdr (hence later than + 11 bit), C01_claim_stagger (+ _by_address: time-out = '
+               'bits_to_time((6 + 2 TS) * slot_bits), 2 slot times more per address, strictly increasing), C01_at_most_one_tx_per_poll (via the '
+               "representation invariant of C05). The bus-level monitors run on the implementation's transcripts.",
  'level_note': 'Trusted: Coq kernel, the regex translators, OCaml extraction + driver, Rust harness. The hand model is validated, not verified, '
-               'against active.rs (differential execution on the explored histories). The theorems proved so far are one-step facts about the model; '
-               'the history-level theorems of DESIGN.md section 4 are not yet proved, so nothing is claimed in MANIFEST.json.',
- 'partial_gap': 'only one-step theorems are proved; the invariant / history-level theorems planned in DESIGN.md section 4 (C01_who_may_transmit, '
-                'C01_sync_pause, C01_claim_stagger, C01_compose) are open',
+               'against active.rs (differential execution on the explored histories). last_bus_activity is the station\'s own notion of the end of the '
+               'previous telegram (RX growth seen at a poll, received telegram, predicted end of its own transmission); that it bounds the true end of '
+               'the previous telegram on the wire is part of the unproved composition. C01_at_most_one_tx_per_poll is stated through the model\'s PHY, '
+               'which panics on a second transmission in one poll, plus the no-panic theorem of C05.',
+ 'partial_gap': 'NOT proved: the N-station composition - that no two transmissions overlap on a shared bus for all station sets and all jittered '
+                'poll schedules (C01_compose of DESIGN.md section 4 and the discharge of its timing assumptions: token hand-over and reply-in-slot '
+                'races, claim stagger against poll jitter). Only the per-station obligations above are theorems; for the multi-station statement the '
+                "evidence is the bus-level monitors (another check) and the per-station monitor of this check running on the implementation.",
  'design_ref': 'DESIGN.md section 4, C01',
- 'assumptions': ['single station; the multi-station composition is not covered']}
+ 'assumptions': ['single station; the multi-station composition is not covered', 'C01_who_may_transmit / C01_claim_stagger: 0 <= slot_time and 0 < token_lost_timeout (true for builder-valid parameters: C01_builder_timeouts)']}
 
-PROPS["C05"] = {'claimed': False,
+PROPS["C05"] = {'claimed': True,
  'coq': 'Properties/C05.v',
  'domains': ['fdl'],
  'nontrivial': ['tx:', 'tag:ht:accept', 'tag:reply:', 'tag:gap:reply', 'tag:gap:no-response', 'tag:check:', 'tag:lt:reply'],
@@ -286,18 +294,25 @@ PROPS["C05"] = {'claimed': False,
                   'from active.rs',
                   'harness PHY / scripted applications / scripted environment of harness/src/fdl.rs; monitors of coq/Model/FdlOracle.v (extracted) '
                   "run on the implementation's transcript"],
- 'technique': 'Coq one-step theorems about the Gallina model of the FDL active station + differential correspondence poll by poll + executable '
-              "monitor of the property on the implementation's transcript",
- 'level_text': 'One-step theorems: GAP cursor total and never the own address (F1), offline and busy polls total. Model and implementation agree on '
-               'PANIC / no PANIC on every explored history (debug assertions, overflow checks, formatting logger); the implementation shows no '
-               'panic.',
+ 'technique': 'Coq proof of an inductive representation invariant of the Gallina model of the FDL active station (all states satisfying it, all '
+              "inputs, all total applications) + differential correspondence poll by poll + executable monitor on the implementation's transcript",
+ 'level_text': 'FULL Rep-based theorem for the FDL active station (not the partial per-state variant): C05_rep_init (Rep holds for a new station with '
+               'builder-valid parameters and after set_online / set_offline), C05_rep_step (from ANY state satisfying Rep, poll with any tx_busy, any '
+               'received byte list, any now in [0, 2^62) and any number - including zero - of total applications is Ok: no panic site of the model is '
+               'reached - legality assertions, unreachable!, unwrap, index, u8 / Instant / Duration arithmetic, a second transmission - and neither the '
+               'receive loop (fuel |rx| + 1) nor the application loop (|apps| iterations) is exhausted; Rep holds again), C05_no_panic (all histories '
+               'of polls / set_online / set_offline, by induction). All nine poll states are covered (Offline, ListenToken, ActiveIdle, UseToken, '
+               'ClaimToken, AwaitDataResponse, PassToken, CheckTokenPass, AwaitStatusResponse). Model and implementation agree on PANIC / no PANIC on '
+               'every explored history (debug assertions, overflow checks, formatting logger); the implementation shows no panic.',
  'level_note': 'Trusted: Coq kernel, the regex translators, OCaml extraction + driver, Rust harness. The hand model is validated, not verified, '
-               'against active.rs (differential execution on the explored histories). The theorems proved so far are one-step facts about the model; '
-               'the history-level theorems of DESIGN.md section 4 are not yet proved, so nothing is claimed in MANIFEST.json.',
- 'partial_gap': 'only one-step theorems are proved; the invariant / history-level theorems planned in DESIGN.md section 4 (C05_no_panic under the '
-                'representation invariant) are open',
+               'against active.rs (differential execution on the explored histories); the theorem is about the model of the FIXED tree (F1 F2 F3 F12). '
+               'Applications are abstract: the hypothesis apps_total says every callback returns and a telegram handed to the PHY has at most 65536 '
+               'bytes; the DP master / live list / scanner applications are covered by their own properties and by the correspondence runs, not by this '
+               'theorem. Logging side effects (F3 class) are covered by the correspondence run with the formatting logger, not by the model.',
+ 'partial_gap': 'the theorem covers the FDL active station with abstract total applications; that DpMaster / LiveList / DpScanner satisfy '
+                'apps_total is not part of this file (correspondence + their own checks); set_passive / PassiveIdle (documented todo!()) is outside',
  'design_ref': 'DESIGN.md section 4, C05',
- 'assumptions': ['builder-valid parameters; set_passive (documented todo!()) and constructor assertions excluded (DESIGN 4.0)']}
+ 'assumptions': ['builder-valid parameters; set_passive (documented todo!()) and constructor assertions excluded (DESIGN 4.0)', 'now in [0, 2^62) microseconds (not necessarily monotone); the receive buffer holds bytes (0..255); applications total (apps_total); the application list keeps its length']}
 
 PROPS["C06"] = {'claimed': False,
  'coq': 'Properties/C06.v',
